@@ -244,7 +244,8 @@ def ap_batch_impl():
                          C("errkind", "res is Err ==> !(res->Err_0 is WrongHeader)", "C06", char=True)])
 
 def cm_new_abs():
-    return dict(ensures=[C("root", "spec_root_coins(res@) == HashVal(novasmt::root_of(inner@)) && res.wf()", "C07", "C08")])
+    return dict(ensures=[C("root", "spec_root_coins(res@) == HashVal(novasmt::root_of(inner@)) && res.wf()", "C07", "C08"),
+                         C("empty", "novasmt::root_of(inner@)@ == Seq::new(32, |i: int| 0u8) ==> res@.coins == IMap::<CoinID, CoinDataHeight>::empty() && res@.counts == IMap::<Address, nat>::empty()", "C07", note="A-SMT: the all-zero root is the empty tree's")])
 def smt_new():
     return dict(ensures=[C("root", "spec_root_smt(res@) == HashVal(novasmt::root_of(tree@))", "C07", "C08"),
                          C("empty", "novasmt::root_of(tree@)@ == Seq::new(32, |i: int| 0u8) ==> res@ == Map::<K, V>::empty()", "C07", note="A-SMT: the all-zero root is the empty tree's")])
@@ -382,3 +383,6 @@ def mm_process_pegging():
 
 def st_tip908_transactions():
     return dict(ensures=[C("dense", "HashVal(res.root()) == spec_dense_txs(self.transactions@)", "C07", det=True)])
+
+def ss_new():
+    return dict(ensures=[C("from", "res@ == map_of_pairs(stakes@)", "C13")])
